@@ -36,6 +36,7 @@ struct T {
     name: String,
     status: Status,
     wake_at: u128,
+    stall_until: u64,
     ready: Option<ReadyPtr>,
     is_client: bool,
     prio: u64,
@@ -136,6 +137,7 @@ impl Sim {
             name: "main".into(),
             status: Status::Runnable,
             wake_at: 0,
+            stall_until: 0,
             ready: None,
             is_client: true,
             prio,
@@ -213,7 +215,7 @@ impl Sim {
     fn is_enabled(g: &Inner, i: usize) -> bool {
         let t = &g.threads[i];
         match t.status {
-            Status::Runnable => true,
+            Status::Runnable => g.step >= t.stall_until,
             Status::Blocked => t.ready.map(|r| unsafe { (*r.0)() }).unwrap_or(true),
             Status::Sleeping => g.clock_ns >= t.wake_at,
             Status::TimedWait => {
@@ -248,6 +250,12 @@ impl Sim {
             enabled = (0..g.threads.len()).filter(|&i| Self::is_enabled(g, i)).collect();
             if !enabled.is_empty() {
                 break;
+            }
+            if g.threads.iter().any(|t| t.stall_until > g.step) {
+                for t in g.threads.iter_mut() {
+                    t.stall_until = 0;
+                }
+                continue;
             }
             let min_wake = g
                 .threads
@@ -513,6 +521,7 @@ impl Hooks for Sim {
             name: short,
             status: Status::Runnable,
             wake_at: 0,
+            stall_until: 0,
             ready: None,
             is_client,
             prio,
@@ -639,8 +648,17 @@ impl Hooks for Sim {
             self.write_trace(&rec, ev.data);
         }
         let mut verdict = IoVerdict::Proceed;
-        if let Some(act) = self.fault_for(&mut g, me) {
+        while let Some(act) = self.fault_for(&mut g, me) {
             match act {
+                Act::Stall { steps } => {
+                    Self::count_fault(&mut g, "stall");
+                    g.threads[me].stall_until = g.step + steps;
+                    g.threads[me].site = "stalled".into();
+                    g.threads[me].status = Status::Runnable;
+                    g = self.reschedule(g, me);
+                    g.threads[me].stall_until = 0;
+                    continue;
+                }
                 Act::Crash | Act::UringCrashSubset { .. } => {
                     Self::count_fault(&mut g, "crash");
                     let m = format!("crash before io {} {}", rec.n, rec.kind);
@@ -679,6 +697,7 @@ impl Hooks for Sim {
                 }
                 Act::UringFailSubmit { .. } | Act::UringCqe { .. } => {}
             }
+            break;
         }
         g.threads[me].site = kind_name(ev.kind).into();
         drop(self.reschedule(g, me));
